@@ -116,7 +116,7 @@ func TestC16(t *testing.T) {
 	c.Rapid(p, 4, pick(20000, 500000), func(rt *rapid.T, sh int) ev.Case { return c16Case(bg.Draw(rt, "in")) })
 	p = c.rec.NewPart("rapid_corpus_mutation", "rapid: repository fixtures with 1-4 edits", true, false, "")
 	c.Rapid(p, 4, pick(15000, 300000), func(rt *rapid.T, sh int) ev.Case {
-		return c16Case(gen.Mutate(rt, rapid.SampledFrom(corpus.SQL).Draw(rt, "base"), gen.FragSQL))
+		return c16Case(gen.Mutate(rt, rapid.SampledFrom(corp().SQL).Draw(rt, "base"), gen.FragSQL))
 	})
 	c.rec.Require("clipped_token")
 }
